@@ -15,3 +15,30 @@ fp = C.source_fingerprints("/repo")
 os.makedirs(os.path.dirname(C.PINS), exist_ok=True)
 json.dump({"repo_head": head, "files": fp}, open(C.PINS, "w"), indent=1, sort_keys=True)
 print("pinned %d files at %s" % (len(fp), head))
+
+# ---- theorem statement pins (pins/theorems.json): every property file of every SPEC; only with --theorems ----
+if "--theorems" not in sys.argv:
+    sys.exit(0)
+import glob
+import importlib
+tp = {}
+for f in sorted(glob.glob(os.path.join(C.VERIF, "props", "c[0-9]*.py"))):
+    mod = importlib.import_module("props." + os.path.basename(f)[:-3])
+    specs = []
+    if hasattr(mod, "SPEC"):
+        specs.append(mod.SPEC)
+    if hasattr(mod, "SPECS"):
+        specs.extend(mod.SPECS)
+    for name in dir(mod):
+        v = getattr(mod, name)
+        if name.endswith("_SPEC") and isinstance(v, dict) and v not in specs:
+            specs.append(v)
+    for sp in specs:
+        key = sp.get("pin_key", sp["id"] + ":" + sp.get("name", sp["group"]))
+        files = [os.path.join(C.coq_dir(sp["group"]), sp["props_file"])]
+        files += [os.path.join(C.coq_dir(sp["group"]), pf) for pf, _ in sp.get("more_props", [])]
+        d = tp.setdefault(key, {})
+        for pf in files:
+            d.update(C.theorem_statements(pf))
+json.dump(tp, open(C.THEOREM_PINS, "w"), indent=1, sort_keys=True)
+print("pinned %d theorem statements of %d property specs" % (sum(len(v) for v in tp.values()), len(tp)))
